@@ -238,6 +238,11 @@ def base_slots(name):
     return None
 
 
+SCIPY_NAME = {"WeibullDistribution": "weibull_min", "LogNormalDistribution": "lognorm", "NormalDistribution": "norm",
+              "ExponentiatedWeibullDistribution": "exponweib", "GeneralizedGammaDistribution": "gengamma",
+              "VonMisesDistribution": "vonmises"}
+
+
 def reference_fit(case, x, before):
     """scipy fit with the slots pinned that the parameter map (not the code's keyword translation) assigns to
     the fixed parameters; starts as recorded for this family. None if the family does not call scipy."""
@@ -246,9 +251,18 @@ def reference_fit(case, x, before):
     F, farg = case["fixed"], case["farg"]
     row = [r for r in TABLES["fit"] if r["fam"] == name and r["fixed"] == F]
     base = base_slots(name)
-    if not row or row[0]["outcome"][0] != "called" or base is None or case.get("method", "mle") != "mle":
+    if base is None or case.get("method", "mle") != "mle":
         return None
-    _, dist, starts, kws = row[0]["outcome"]
+    if not row or row[0]["outcome"][0] != "called":
+        # the symbolic run of _fit_mle did not reach scipy (e.g. it branched on the truth value of a fixed
+        # parameter): fall back to scipy's own start values; check_fit then judges with a looser tolerance
+        dist = SCIPY_NAME.get(name)
+        if dist is None:
+            return None
+        starts, kws = [], []
+        case["_fallback_reference"] = True
+    else:
+        _, dist, starts, kws = row[0]["outcome"]
     d = getattr(sts, dist)
     n = len([s for s in d.shapes.split(",")]) if d.shapes else 0
     env = {}
@@ -332,7 +346,8 @@ def check_fit(case):
         with np.errstate(all="ignore"):
             nll_code, nll_ref = float(d.nnlf(got, x)), float(d.nnlf(want, x))
         # the estimate is the one *given* the fixed values: at least as likely as scipy's pinned fit
-        if np.isfinite(nll_ref) and not nll_code <= nll_ref + 1e-6 * max(1.0, abs(nll_ref)):
+        slack = 1e-3 if case.get("_fallback_reference") else 1e-6
+        if np.isfinite(nll_ref) and not nll_code <= nll_ref + slack * max(1.0, abs(nll_ref)):
             bad.append((_sig(name + ".fit", "estimate_given_fixed", method="mle"),
                         f"fixed {[params[q] for q in F]}={[farg[q] for q in F]}: negative log-likelihood {nll_code!r} at "
                         f"the fitted scipy slots {got}, but scipy.stats.{dist}.fit with exactly the mapped slots pinned "
